@@ -87,10 +87,8 @@ theorem f_T_inc (s : St) (p : Pid) (b : Int) : Inv s → s.lock = .thief p → s
   simp only [applySto]
   have hd : decide (b + 1 = s.lb + 1) = true := by simp [hlb]
   rw [hd]
-  cases h
-  simp only [ownerLocked, carry, resetting, ownerFlight] at *
   rcases hpc with hpc | hpc | hpc
-  all_goals tso_finish3
+  all_goals tso_fastT h p [tkf, wkf, vkf]
 
 set_option maxHeartbeats 4000000 in
 theorem f_T_rb (s : St) (p : Pid) : Inv s → s.lock = .thief p → s.bufT p = [.base s.lb] →
@@ -101,9 +99,7 @@ theorem f_T_rb (s : St) (p : Pid) : Inv s → s.lock = .thief p → s.bufT p = [
   simp only [applySto]
   have hd : decide (s.lb = s.lb + 1) = false := by simp; omega
   rw [hd]
-  cases h
-  simp only [ownerLocked, carry, resetting, ownerFlight] at *
   rcases hpc with hpc | hpc | hpc
-  all_goals tso_finish3
+  all_goals tso_fastT h p [tk6, wk6, vu]
 
 end MythVerif.WsqTso
